@@ -2,9 +2,6 @@ package c10
 
 import (
 	"fmt"
-	"os"
-	"os/exec"
-	"path/filepath"
 	"runtime"
 	"strings"
 	"sync"
@@ -167,59 +164,8 @@ func TestVerif(t *testing.T) {
 			}
 			return 25000
 		},
-		Extra: raceCompanion,
+		Extra: sched.RaceCompanion("C10"),
 	})
-}
-
-// raceCompanion runs the free-running -race binary (built by run.sh) if present.
-func raceCompanion(tier string) map[string]any {
-	bin := filepath.Join(kit.Root(), ".build", "C10.race.test")
-	if _, err := os.Stat(bin); err != nil {
-		return map[string]any{"race_companion": "not built"}
-	}
-	cmd := exec.Command(bin, "-test.run", "^TestRace$", "-test.count", "1")
-	cmd.Env = append(os.Environ(), "VERIF_TIER="+tier, "GORACE=halt_on_error=0")
-	out, err := cmd.CombinedOutput()
-	s := string(out)
-	res := map[string]any{}
-	if strings.Contains(s, "WARNING: DATA RACE") {
-		fr := ""
-		if i := strings.Index(s, "WARNING: DATA RACE"); i >= 0 {
-			fr = kit.FirstRepoFrame(s[i:])
-		}
-		res["race_companion"] = "DATA RACE reported"
-		res["extra_failures"] = []kit.Failure{{Space: "race-companion", Key: "data-race|" + fr, Detail: tail(s, 6000)}}
-		return res
-	}
-	if err != nil {
-		if strings.Contains(s, "MISMATCH") {
-			res["race_companion"] = "free-running mismatch"
-			res["extra_failures"] = []kit.Failure{{Space: "race-companion", Key: "free-running-concurrent-run-differs", Detail: tail(s, 6000)}}
-			return res
-		}
-		res["race_companion"] = "failed to run"
-		res["harness_error"] = "race companion: " + err.Error() + "\n" + tail(s, 3000)
-		return res
-	}
-	res["race_companion"] = strings.TrimSpace(lastLineWith(s, "race-companion:"))
-	return res
-}
-
-func tail(s string, n int) string {
-	if len(s) > n {
-		return s[:n]
-	}
-	return s
-}
-
-func lastLineWith(s, sub string) string {
-	r := ""
-	for _, l := range strings.Split(s, "\n") {
-		if strings.Contains(l, sub) {
-			r = l
-		}
-	}
-	return r
 }
 
 // TestRace is the free-running companion: same artefacts, no scheduler, many
@@ -249,7 +195,7 @@ func TestRace(t *testing.T) {
 						in := inputs[(g+i)%3]
 						if got := p.run(in); got != p.expected[in] {
 							mu.Lock()
-							bad = fmt.Sprintf("MISMATCH artefact %s input %d: got %q want %q", a.Name, in, got, p.expected[in])
+							bad = fmt.Sprintf("MISMATCH-KEY free-running-concurrent-run-differs|artefact=%s\nMISMATCH artefact %s input %d: got %q want %q", a.Name, a.Name, in, got, p.expected[in])
 							mu.Unlock()
 							return
 						}
